@@ -2,6 +2,7 @@
    what it prints and its exit status, for every layer combination; when it needs a key; the crash
    sites of `info` that a crafted archive reaches (witnesses).  Built on ArchiveProofs (the shape
    of the archive, the opened stack), RoundTrip (the footer), CliProofs (the sizes get_file reports). *)
+From MLA Require Import Limit.
 From MLA Require Import Base Stream Blocks Writer Reader RoundTripBlocks RoundTripWriter RoundTripReader RoundTrip
   CompLayer CompLayerProofs EncLayer RawLayer RawLayerProofs LayerStack Format Ecies Archive ArchiveProofs
   Cli CliProofs CliArchive CliInfo CliInfoStack.
@@ -42,6 +43,7 @@ Qed.
 
 Section CliInfoProofs.
   Variables CHUNK TAG CIPHERBUF BLOCK LIMIT FNMAX : N.
+  Local Hint Extern 0 Limit => exact LIMIT : typeclass_instances.
   Variables TS TC TA TE : N.
   Variable H : bytes -> bytes.
   Variable order : footer -> footer.
@@ -173,11 +175,12 @@ Section CliInfoProofs.
         destruct (wc_encrypt cfg && match wc_recipients cfg with [] => true | _ => false end); [discriminate|].
         unfold dump_header. fold hp. destruct (LIMIT <? config_size hp); [discriminate|]. cbn [bind].
         rewrite Hrun. destruct (first_bad rs); cbn [bind]; try discriminate.
-        rewrite (lower_write_ok CHUNK TAG CIPHERBUF BLOCK LIMIT H pubk dh kdf wenc wdec wtag ksf tagf dec
+        rewrite (lower_write_ok CHUNK TAG CIPHERBUF BLOCK LIMIT FNMAX H pubk dh kdf wenc wdec wtag ksf tagf dec
                    HCHUNK HTAG HCB HB HB32 HHlen wdec_wenc Hpubk Hwenc Hwtag cfg ct cm (w_out sf)).
         - cbn [bind]. intros Hx. injection Hx as <-. reflexivity.
         - intros Ec. destruct (Hc Ec) as (_ & _ & _ & Hx & _). exact Hx.
-        - intros Ee. destruct (He Ee) as (_ & _ & _ & Hx & _). exact (proj1 Hx). }
+        - intros Ee. destruct (He Ee) as (_ & _ & _ & Hx & _). exact (proj1 Hx).
+        - intros Ec. destruct (Hc Ec) as (_ & _ & Hx & _). exact Hx. }
       subst a. split; [exact Hw|]. unfold Cli.cmd_create. rewrite Hw. reflexivity.
     Qed.
 
